@@ -1,5 +1,8 @@
 #!/venv/bin/python
-"""Writes known.d/C07.json, C08.json, C10.json from the compact tables below (one row per confirmed
+"""NOTE (lead): after the fix commits 8f3dc05 9b57cfe a41196c 644f801 844e8e7 the files known.d/C07|C08|C10.json
+were pruned by hand (entries no longer hit were dropped) and are AUTHORITATIVE; do not re-run this generator
+without moving the corresponding rows to FIXED first.
+Writes known.d/C07.json, C08.json, C10.json from the compact tables below (one row per confirmed
 defect of ppci.arch.riscv; each row expands to fnmatch patterns over violation keys, keyed by
 instruction class / operand / value category so that any other violation is still reported).
 Run harness/mkmanifest.py afterwards.  Rows whose defect has been repaired by an applied fix move to FIXED."""
